@@ -47,7 +47,7 @@ def other_file() -> bytes:
     return _OTHER
 
 
-def crash_states(old: dict, new: dict, first: dict | None = None, loaded: str | None = None):
+def crash_states(old: dict, new: dict, first: dict | None = None, loaded: str | None = None, open_fault: str | None = None):
     """save(old) completes, then save(new); yield (class, description, files, ops) for every crash point of
     that last save. With `first`: an earlier process left `first` in the file, and ONE Persistence object over
     one registry dict loads it, saves `old` and then saves `new`, as a running gateway does (state or side
@@ -98,11 +98,16 @@ def crash_states(old: dict, new: dict, first: dict | None = None, loaded: str | 
     vfs.files[OTHER_PATH] = bytearray(other_file())
     base = vfs.state()
     vfs.log.clear()
+    if open_fault is not None:
+        # the first attempt to open the file for writing meets an OS-level error (permissions, too many open files,
+        # quota): the save may fail, or work around it - whatever it does is a sequence of file operations too
+        vfs.fail["open-write"] = {"PermissionError": PermissionError(13, "denied"), "OSError": OSError(24, "too many open files"), "FileExistsError": FileExistsError(17, "exists")}[open_fault]
     if saver is None:
         kind, val, _ = pers.save_nodes(new, vfs)
     else:
         kind, val = pers.run(saver.save, vfs)
-    if kind != "ok":
+    vfs.fail.clear()
+    if kind != "ok" and open_fault is None:
         raise SaveFailed(f"{type(val).__name__}: {val}")
     ops = list(vfs.log)
     final = vfs.snapshot()
@@ -159,8 +164,10 @@ def classify(files: dict, old_c, new_c, empty_c) -> str | None:
 def job(j):
     oi, ni = j[0], j[1]
     fi = j[2] if len(j) > 2 else None
-    loaded = fi if isinstance(fi, str) else None
-    if loaded:
+    loaded = fi if isinstance(fi, str) and not fi.startswith("fault:") else None
+    open_fault = fi[6:] if isinstance(fi, str) and fi.startswith("fault:") else None
+    tag = fi if isinstance(fi, str) else None
+    if isinstance(fi, str):
         fi = None
     old, new = registry(oi), registry(ni)
     first = registry(fi) if fi is not None else None
@@ -175,9 +182,9 @@ def job(j):
     shape = None
     classes = set()
     try:
-        states = list(crash_states(old, new, first, loaded))
+        states = list(crash_states(old, new, first, loaded, open_fault))
     except SaveFailed as err:
-        return 1, [(f"C15|save-failed-without-fault", f"old registry #{oi}, new registry #{ni}: the save itself failed on a healthy file system: {err}", {"old": oi, "new": ni, "first": loaded or fi})], None, []
+        return 1, [(f"C15|save-failed-without-fault", f"old registry #{oi}, new registry #{ni}: the save itself failed on a healthy file system: {err}", {"old": oi, "new": ni, "first": tag or fi})], None, []
     for cls, desc, files, ops in states:
         n += 1
         classes.add(cls)
@@ -187,7 +194,9 @@ def job(j):
             hist = f"file held registry #{fi} when the session started (loaded), then " if fi is not None else ""
             if loaded:
                 hist = f"the file ({loaded} layout) was loaded by this session and this is its first save: "
-            viols.append((f"C15|{cls}|{res}", f"{hist}old registry #{oi}, new registry #{ni}: crash {desc}: the file {res.replace('-', ' ')}", {"old": oi, "new": ni, "first": loaded or fi}))
+            if open_fault:
+                hist = f"the first open for writing fails with {open_fault}: "
+            viols.append((f"C15|{cls}|{res}", f"{hist}old registry #{oi}, new registry #{ni}: crash {desc}: the file {res.replace('-', ' ')}", {"old": oi, "new": ni, "first": tag or fi}))
     return n, viols, shape, sorted(classes)
 
 
@@ -199,13 +208,14 @@ def run(ctx: core.Ctx) -> core.Report:
     # the file was written by an earlier process (native or legacy pymysensors layout), is loaded, and the
     # first save of the session dies
     jobs += [(o, n, lay) for lay in ("native", "legacy") for o in regs for n in regs]
+    jobs += [(o, n, "fault:" + e) for e in ("PermissionError", "OSError", "FileExistsError") for o in regs for n in regs if o != 0 or n != 0]
     res = core.pmap(job, jobs, ctx.workers, chunksize=1)
     total = sum(r[0] for r in res)
     viols = [core.Violation(k, w, rep) for r in res for k, w, rep in r[1]]
     cov = {
         "evaluations": total,
         "distinct_nontrivial": total - len(jobs),
-        "rule": "for every ordered pair (old, new) of registries, and for every triple (first, old, new) saved in a row by ONE Persistence object, and for every pair with the old registry loaded from a file in native / legacy layout and the dying save the first of the session: the earlier saves complete, then save(new) runs on the in-memory file system; crash states = the file system after every prefix of the raw operation log that CPython's real TextIOWrapper/BufferedWriter stack produced, and inside every raw write after every byte (large writes: first/last 64 bytes + every 97th); each state is loaded by the real Persistence.load; non-trivial = any state other than 'before the first operation'",
+        "rule": "for every ordered pair (old, new) of registries, and for every triple (first, old, new) saved in a row by ONE Persistence object, and for every pair with the old registry loaded from a file in native / legacy layout and the dying save the first of the session, and for every pair with the first open-for-writing of the dying save failing with one of three OSError classes (the process may die during whatever the save does about it, or right after the failed save): the earlier saves complete, then save(new) runs on the in-memory file system; crash states = the file system after every prefix of the raw operation log that CPython's real TextIOWrapper/BufferedWriter stack produced, and inside every raw write after every byte (large writes: first/last 64 bytes + every 97th); each state is loaded by the real Persistence.load; non-trivial = any state other than 'before the first operation'",
         "exhaustive": True,
         "bounds": {"registries": regs, "pairs": len(jobs)},
         "raw_operation_shape_of_a_save": res[-1][2],
